@@ -1250,4 +1250,51 @@ theorem matchSegs_params : ∀ (names segs : List (List Nat)), names.length = se
       unfold matchSegs
       simp [hsE, ih']
 
+
+/-! ### query round trip -/
+
+theorem formSpec_of_all {ps : List (List Nat × List Nat × Bool)} (g : Field → Val) :
+    ∀ (fs : List Field), (∀ f ∈ fs, formFieldSpec ps f = .ok (g f)) →
+    formSpec ps fs = some (fs.map (fun f => (f.name, g f))) := by
+  intro fs
+  induction fs with
+  | nil => intro _; rfl
+  | cons f fs ih =>
+    intro h
+    simp only [formSpec, h f (List.mem_cons_self ..), ih (fun x hx => h x (List.mem_cons_of_mem _ hx)), List.map_cons]
+
+theorem occurrences_not_mem {k : List Nat} : ∀ {ps : List (List Nat × List Nat × Bool)},
+    k ∉ ps.map (·.1) → occurrences k ps = [] := by
+  intro ps
+  induction ps with
+  | nil => intro _; rfl
+  | cons p ps ih =>
+    intro h
+    obtain ⟨k', v, o⟩ := p
+    simp only [List.map_cons, List.mem_cons, not_or] at h
+    simp only [occurrences]
+    rw [if_neg (fun e => h.1 e.symm)]
+    exact ih h.2
+
+theorem occurrences_of_mem_nodup {k v : List Nat} {o : Bool} : ∀ {ps : List (List Nat × List Nat × Bool)},
+    (ps.map (·.1)).Nodup → (k, v, o) ∈ ps → occurrences k ps = [(v, o)] := by
+  intro ps
+  induction ps with
+  | nil => intro _ h; cases h
+  | cons p ps ih =>
+    intro hn hm
+    obtain ⟨k', v', o'⟩ := p
+    simp only [List.map_cons, List.nodup_cons] at hn
+    simp only [occurrences]
+    rcases List.mem_cons.mp hm with heq | hm'
+    · cases heq
+      simp only [if_true]
+      rw [occurrences_not_mem hn.1]
+    · have : k' ≠ k := by
+        intro e
+        subst e
+        exact hn.1 (List.mem_map.mpr ⟨(k', v, o), hm', rfl⟩)
+      rw [if_neg this]
+      exact ih hn.2 hm'
+
 end Pxv.ReqData
